@@ -230,6 +230,49 @@ def gen_fwd(rng, n):
     return out
 
 
+def gen_gated(rng, n, exhaustive_len):
+    """schedules of Model/Forward.v replayed on the real runBidirectionalForward through gated (non-TCP) doubles:
+    token 0 = next Read/Write call of the upload loop, 1 = of the download loop, others = no-op"""
+    out = []
+    A, B = [b"AAAAAAAA".hex(), b"CCCC".hex()], [b"BBBBBBBB".hex(), b"DDDD".hex()]
+    # exhaustive small scope: every schedule over {0,1} of the given length on 2 chunks per direction
+    for m in range(1 << exhaustive_len):
+        out.append({"mode": "gated", "up": A, "down": B, "sched": [(m >> i) & 1 for i in range(exhaustive_len)], "counters": bool(m & 1)})
+    for _ in range(n):
+        def chunks(base):
+            return [bytes((base + rng.randrange(8)) for _ in range(rng.choice([1, 2, 8, 100, 1000, 32768] if rng.random() < 0.1 else [1, 2, 8, 100])))
+                    .hex() for _ in range(rng.choice([0, 1, 2, 3, 6]))]
+        up, down = chunks(0x41), chunks(0x61)
+        total = 2 * (len(up) + len(down)) + 2
+        k = rng.random()
+        if k < 0.25:
+            sched = [i % 2 for i in range(rng.randrange(total + 1))]
+        elif k < 0.4:
+            sched = [0, 1, 1, 0] * (total // 4 + 1)
+        else:
+            sched = [rng.choice([0, 0, 0, 1, 1, 1, 2, 5]) for _ in range(rng.randrange(2 * total + 1))]
+        out.append({"mode": "gated", "up": up, "down": down, "sched": sched, "counters": rng.random() < 0.5})
+    return out
+
+
+def gen_duplex(rng, thorough):
+    """both directions streaming distinct patterned payloads at the same time through the real forwarders"""
+    out = []
+    big = [4 << 20, 8 << 20] if thorough else [262144]
+    small = [0, 1, 8192, 100000]
+    for local in ("tcp", "pipe"):
+        for counters in (True, False):
+            for b in big:
+                pairs = [(b, b), (b, rng.choice(small)), (rng.choice(small), b)]
+                if thorough:
+                    pairs += [(b, b // 2 + 1), (b // 3, b)]
+                for u, d in pairs:   # half-close orders follow from the lengths: the shorter direction closes first
+                    out.append({"mode": "duplex", "up_len": u, "down_len": d, "seed": rng.randrange(1 << 30), "local": local,
+                                "counters": counters, "small_buf": False,
+                                "wsize": [rng.choice([1000, 4096, 32768, 32769, 70000, 1 << 20]) for _ in range(rng.randrange(0, 4))]})
+    return out
+
+
 def gen_tid(rng, n):
     out = [{"mode": "tid", "strs": [hx(""), hx("a"), hx("1234567890123456"), hx("12345678901234567x"), hx("my-tunnel-id")]}]
     for _ in range(n):
@@ -255,8 +298,14 @@ def case_values(c, o):
             fr = [[[hb(f["tid"]), f["ty"], hb(f["data"])] for f in c["frames"]]]
         obs = [[1, hb(x["tid"]), x["ty"], hb(x["data"]), x["consumed"]] if x["ok"] else [0, x["eof"], x["consumed"]] for x in o["obs"]]
         return [[0, fr, hb(o["wire"]), list(c["cuts"]), obs]]
-    if c["mode"] in ("conc", "fwd"):
-        return []     # real goroutine interleaving: frame order is not reproducible, Go-side predicate only
+    if c["mode"] in ("conc", "fwd", "duplex"):
+        return []
+    if c["mode"] == "gated":
+        if "up_final" not in o and not o["prop_ok"]:
+            return []   # the replay hung: already reported by the predicate
+        g = lambda k: hb(o.get(k) or "")
+        return [[3, [hb(x) for x in c["up"]], [hb(x) for x in c["down"]], list(c["sched"]),
+                 g("up_mid"), g("down_mid"), g("up_final"), g("down_final")]]     # real goroutine interleaving: frame order is not reproducible, Go-side predicate only
     if c["mode"] == "stream":
         ops = []
         for op in c["ops"]:
@@ -322,7 +371,21 @@ def shrink(binary, case, key):
             t = dict(cur, wire=cur["wire"][:-2])
             if fails(t):
                 cur, changed = t, True
-        for field in ("cuts", "caps", "dribble"):
+        for field in ("up", "down"):
+            items = cur.get(field) or []
+            for i in range(len(items)):
+                t = dict(cur, **{field: items[:i] + items[i + 1:]})
+                if fails(t):
+                    cur, changed = t, True
+                    break
+        if cur["mode"] == "gated":
+            sc = cur.get("sched") or []
+            for i in range(len(sc)):
+                t = dict(cur, sched=sc[:i] + sc[i + 1:])
+                if fails(t):
+                    cur, changed = t, True
+                    break
+        for field in ("cuts", "caps", "dribble", "sched"):
             if len(cur.get(field) or []) > 1:
                 t = dict(cur, **{field: cur[field][:len(cur[field]) // 2]})
                 if fails(t):
@@ -372,6 +435,8 @@ def run(ctx, only_cases=None):
         cases += gen_tid(rng, 400 if thorough else 40)
         cases += gen_conc(rng, 60 if thorough else 8)
         cases += gen_fwd(rng, 100 if thorough else 12)
+        cases += gen_gated(rng, 2000 if thorough else 200, 11 if thorough else 7)
+        cases += gen_duplex(rng, thorough)
     outs = vlib.run_harness(binary, cases, timeout=1500)
     if only_cases is None:
         wires = [o["wire"] for c, o in zip(cases, outs) if c["mode"] in ("enc", "stream") and 0 < o["wire_len"] < 3000]
@@ -469,6 +534,15 @@ def run(ctx, only_cases=None):
             dist["reader_terminations"][o.get("term")] = dist["reader_terminations"].get(o.get("term"), 0) + 1
             if len(o.get("reads") or []) >= 2 and (foreign or bigw):
                 nontrivial.add(h)
+        elif c["mode"] == "gated":
+            dist["forwarder_gated_schedules"] = dist.get("forwarder_gated_schedules", 0) + 1
+            if c["up"] and c["down"] and 0 in c["sched"] and 1 in c["sched"]:
+                nontrivial.add(h)
+        elif c["mode"] == "duplex":
+            dist["forwarder_full_duplex_runs"] = dist.get("forwarder_full_duplex_runs", 0) + 1
+            dist["forwarder_full_duplex_bytes"] = dist.get("forwarder_full_duplex_bytes", 0) + c["up_len"] + c["down_len"]
+            if c["up_len"] > 32768 and c["down_len"] > 32768:
+                nontrivial.add(h)
         elif c["mode"] == "fwd":
             dist["bidirectional_forward_runs"] = dist.get("bidirectional_forward_runs", 0) + 1
             if o.get("wire_len", 0) > MAXF:
@@ -484,7 +558,7 @@ def run(ctx, only_cases=None):
         "evaluations": len(cases), "distinct_nontrivial": len(nontrivial),
         "rule": "cases generated from VERIF_SEED by one PRNG (corpus first): frame lists x chunkings through the real "
                 "WriteFrameToWriter/ReadFrameFromReader; mutated/hostile byte strings through ReadFrameFromReader with MemStats; "
-                "scripts of Write/CloseWrite/Close of several tunnels + raw WriteFrame + raw bytes on one loopback TCP connection read "
+                "schedules of the two copy loops of runBidirectionalForward replayed through gated doubles (exhaustive for a small scope) and full-duplex streaming through real forwarders/FrameStreams with per-direction content comparison; scripts of Write/CloseWrite/Close of several tunnels + raw WriteFrame + raw bytes on one loopback TCP connection read "
                 "by a real FrameStream with generated buffer sizes; id strings through TunnelIDFromString. distinct = distinct case "
                 "JSON; non-trivial = (enc) >=2 frames under a non-empty chunk list, (dec) >=1 frame decoded before the error or a "
                 "chunked input of >=2 headers, (stream) >=2 data reads AND foreign/unknown frames or a write larger than one frame. "
@@ -502,7 +576,7 @@ def run(ctx, only_cases=None):
         "transport write errors and deadlines are not modelled (Write/CloseWrite/Close succeed on the transport)",
         "the mutexes of FrameStream (readMu/writeMu) are not modelled: one Read / one Write is one atomic step",
         "allocation is the sizes passed to make([]byte, n) in ReadFrameFromReader (model) and runtime.MemStats.TotalAlloc deltas (harness); error values are not counted by the model",
-        "runBidirectionalForward / CrossNodeListener (users of FrameStream) are not modelled",
+        "runBidirectionalForward is modelled as two copy loops at Read/Write-call granularity (Model/Forward.v): io.Copy's fast paths (ReaderFrom/WriterTo, used for a bare *net.TCPConn without counters), short writes, transport errors and the closeAll bookkeeping are not modelled; CrossNodeListener and the pool are not modelled",
     ]
     if broken is not None:
         raise broken
